@@ -21,6 +21,8 @@ type node struct {
 	succ []*int // branch: all; close wgDone wgWait spawn cancel: one
 	site string
 	flat []int
+	lab  []string // branch: the decision each successor stands for (path of decisions after flattening)
+	flab []string
 }
 
 func slot() *int { v := -1; return &v }
@@ -56,6 +58,7 @@ func (g *gbuild) emit(n *node) int {
 type chanDecl struct {
 	name string
 	cap  int
+	env  bool // created by the template: a field of a long-lived object or an environment channel
 }
 
 type wgDecl struct {
@@ -64,17 +67,18 @@ type wgDecl struct {
 }
 
 type pipeline struct {
-	name  string
-	chans []*chanDecl
-	wgs   []*wgDecl
-	nctx  int
-	gs    []*gbuild
-	warns []string
-	facts []string // extracted facts (e.g. "ctx0 created by context.WithTimeout")
+	name       string
+	chans      []*chanDecl
+	wgs        []*wgDecl
+	nctx       int
+	gs         []*gbuild
+	warns      []string
+	inTemplate bool     // channels created now belong to the environment
+	facts      []string // extracted facts (e.g. "ctx0 created by context.WithTimeout")
 }
 
 func (p *pipeline) newChan(name string, cap int) int {
-	p.chans = append(p.chans, &chanDecl{name, cap})
+	p.chans = append(p.chans, &chanDecl{name: name, cap: cap, env: p.inTemplate})
 	return len(p.chans) - 1
 }
 func (p *pipeline) newWg(name string) int {
@@ -126,26 +130,36 @@ func (g *gbuild) compact() error {
 		}
 		seen := map[int]bool{i: true}
 		var targets []int
+		var labels []string
 		inT := map[int]bool{}
-		var dfs func(k int)
-		dfs = func(k int) {
-			for _, s := range g.nodes[k].succ {
+		var dfs func(k int, path string)
+		dfs = func(k int, path string) {
+			for si, s := range g.nodes[k].succ {
 				j := *s
+				l := path
+				if si < len(g.nodes[k].lab) {
+					if l != "" {
+						l += ";"
+					}
+					l += g.nodes[k].lab[si]
+				}
 				if g.nodes[j].kind != "branch" {
 					if !inT[j] {
 						inT[j] = true
 						targets = append(targets, j)
+						labels = append(labels, l)
 					}
 					continue
 				}
 				if !seen[j] {
 					seen[j] = true
-					dfs(j)
+					dfs(j, l)
 				}
 			}
 		}
-		dfs(i)
+		dfs(i, "")
 		n.flat = targets
+		n.flab = labels
 	}
 	for i, n := range g.nodes {
 		if n.kind != "branch" {
@@ -161,6 +175,7 @@ func (g *gbuild) compact() error {
 			v := j
 			n.succ = append(n.succ, &v)
 		}
+		n.lab = n.flab
 	}
 	// bypass skip nodes
 	for _, n := range g.nodes {
@@ -329,7 +344,7 @@ func (p *pipeline) lean() string {
 		if i > 0 {
 			b.WriteString(",")
 		}
-		fmt.Fprintf(&b, "\n    ⟨%s, %d⟩", leanStr(c.name), c.cap)
+		fmt.Fprintf(&b, "\n    ⟨%s, %d, %v⟩", leanStr(c.name), c.cap, c.env)
 	}
 	b.WriteString("]\n  wgs := [")
 	for i, w := range p.wgs {
@@ -356,6 +371,26 @@ func (p *pipeline) lean() string {
 				b.WriteString(", ")
 			}
 			b.WriteString(leanStr(n.site))
+		}
+		b.WriteString("],\n      conds := [")
+		for j, n := range g.nodes {
+			if j > 0 {
+				b.WriteString(", ")
+			}
+			b.WriteString("[")
+			if n.kind == "branch" {
+				for k := range n.succ {
+					if k > 0 {
+						b.WriteString(", ")
+					}
+					l := ""
+					if k < len(n.lab) {
+						l = n.lab[k]
+					}
+					b.WriteString(leanStr(l))
+				}
+			}
+			b.WriteString("]")
 		}
 		b.WriteString("] }")
 	}
